@@ -14,6 +14,7 @@ from vlib import core
 LEVEL = "model_checking"
 
 ALPHABETS = ["num1", "num2", "quoted", "cmt", "ops1", "ops2", "soup", "semis", "prefix"]
+LEXEME_CFGS = ["div", "linedir"]   # lexeme-level cfgs (Scanner_quick_<name>.cfg), quick tier
 
 
 def fold(ctx, res):
@@ -43,7 +44,7 @@ def run(ctx):
     else:
         # liveness (Termination) + determinism of the machine on a small bound, all three dialects
         ctx.tlc("lex", "Scanner", "Scanner_live.cfg", cases_path=cases, timeout_s=3600, workers=workers)
-        for a in ALPHABETS:
+        for a in ALPHABETS + LEXEME_CFGS:
             ctx.tlc("lex", "Scanner", "Scanner_quick_%s.cfg" % a, cases_path=cases, timeout_s=3600, workers=workers)
         if ctx.tier == "thorough":
             for a in ALPHABETS:
@@ -61,7 +62,7 @@ def run(ctx):
     ctx.exhaustive = True
     ctx.rule = ("every byte string up to the per-alphabet length bound (quick 3-5, thorough 4-6) over 8 alphabets "
                 "(numeric x2, quoted, comment/whitespace, operator x2, character-class soup incl. NUL/BOM/invalid "
-                "UTF-8/non-ASCII letter and digit, semicolon rules), each replayed in both comment modes; thorough adds "
+                "UTF-8/non-ASCII letter and digit, semicolon rules), plus two lexeme-level cfgs (div: token, operator, operand with /* */ comments in between; linedir: line-directive comments), each replayed in both comment modes; thorough adds "
                 "seeded TLC simulation of strings of 16..40 symbols over the union alphabet; distinct/non-trivial = distinct "
                 "sequence of token kinds in the model's stream")
     ctx.assumptions += ["bytes >= 0x80 are represented by one letter, one digit, BOM and one invalid byte",
